@@ -43,16 +43,16 @@ theorem piece_cases (mp : MotionProfile F) (t : Int) :
 
 theorem piece_initial_iff (mp : MotionProfile F) (t : Int) :
     getPiece mp t = .initialAcceleration ↔ 0 ≤ t ∧ t < mp.t1 := by
-  rcases piece_cases mp t with h | h | h | h | h <;> simp [h] <;> omega
+  rcases piece_cases mp t with h | h | h | h | h <;> simp [h]
 theorem piece_constant_iff (mp : MotionProfile F) (t : Int) :
     getPiece mp t = .constantVelocity ↔ 0 ≤ t ∧ mp.t1 ≤ t ∧ t < mp.t2 := by
-  rcases piece_cases mp t with h | h | h | h | h <;> simp [h] <;> omega
+  rcases piece_cases mp t with h | h | h | h | h <;> simp [h]
 theorem piece_end_iff (mp : MotionProfile F) (t : Int) :
     getPiece mp t = .endAcceleration ↔ 0 ≤ t ∧ mp.t1 ≤ t ∧ mp.t2 ≤ t ∧ t < mp.t3 := by
-  rcases piece_cases mp t with h | h | h | h | h <;> simp [h] <;> omega
+  rcases piece_cases mp t with h | h | h | h | h <;> simp [h]
 theorem piece_complete_iff (mp : MotionProfile F) (t : Int) :
     getPiece mp t = .complete ↔ 0 ≤ t ∧ mp.t1 ≤ t ∧ mp.t2 ≤ t ∧ mp.t3 ≤ t := by
-  rcases piece_cases mp t with h | h | h | h | h <;> simp [h] <;> omega
+  rcases piece_cases mp t with h | h | h | h | h <;> simp [h]
 /-- for a profile with ordered times (what the constructor yields) "complete" is simply `t ≥ t3` -/
 theorem piece_complete_iff_ordered (mp : MotionProfile F) (t : Int)
     (hord : 0 ≤ mp.t1 ∧ mp.t1 ≤ mp.t2 ∧ mp.t2 ≤ mp.t3) :
@@ -67,7 +67,7 @@ theorem piece_moving_iff_ordered (mp : MotionProfile F) (t : Int)
 /-! ### 1. before-start ⇔ `t < 0` ⇔ mode / acceleration / history absent -/
 
 theorem before_start_iff (mp : MotionProfile F) (t : Int) : getPiece mp t = .beforeStart ↔ t < 0 := by
-  rcases piece_cases mp t with h | h | h | h | h <;> simp [h] <;> omega
+  rcases piece_cases mp t with h | h | h | h | h <;> simp [h]
 
 theorem mode_none_iff (mp : MotionProfile F) (t : Int) : getMode mp t = none ↔ t < 0 := by
   unfold getMode
@@ -298,7 +298,7 @@ theorem history_eq_accessor (chk : Bool) (mp : MotionProfile F) (t : Int) (d : D
         | none => simp [hv] at h
         | some q =>
           simp only [hv, Except.ok.injEq, Option.some.injEq] at h
-          exact ⟨.position, q, rfl, by simpa using hv, h.symm⟩
+          exact ⟨.position, q, rfl, by simp [hv], h.symm⟩
     | velocity =>
       simp only at h
       cases hv : getVelocity chk mp t with
@@ -308,14 +308,14 @@ theorem history_eq_accessor (chk : Bool) (mp : MotionProfile F) (t : Int) (d : D
         | none => simp [hv] at h
         | some q =>
           simp only [hv, Except.ok.injEq, Option.some.injEq] at h
-          exact ⟨.velocity, q, rfl, by simpa using hv, h.symm⟩
+          exact ⟨.velocity, q, rfl, by simp [hv], h.symm⟩
     | acceleration =>
       simp only at h
       cases hv : getAcceleration chk mp t with
       | none => simp [hv] at h
       | some q =>
         simp only [hv, Except.ok.injEq, Option.some.injEq] at h
-        exact ⟨.acceleration, q, rfl, by simpa using hv, h.symm⟩
+        exact ⟨.acceleration, q, rfl, by simp [hv], h.symm⟩
 
 /-- the three read-offs: time stamp, kind, raw value -/
 theorem history_stamp_kind_value (chk : Bool) (mp : MotionProfile F) (t : Int) (d : Datum (Command F))
